@@ -373,10 +373,9 @@ def serialize_result(end_event, success_name='', fmt=lambda x: x) -> str:
 
 
 def serialize_access_flags(flags: int) -> List[BscAccessFlags]:
-    amode = [flag for flag in BscAccessFlags if flag.value & flags]
-    if not amode:
-        amode = [BscAccessFlags.F_OK]
-    return amode
+    if not flags:
+        return [BscAccessFlags.F_OK]
+    return [flag for flag in BscAccessFlags if flag.value & flags]
 
 
 @dataclass
